@@ -34,8 +34,9 @@ type BoundaryCase struct {
 	// and the first read. "write_dead": every transport write fails from then
 	// on with a plain (non-net) error, so no pong and no close reply can be
 	// sent; "close_first": the application sends its own close frame before it
-	// reads what came with the handshake. Neither is a reason to lose a message
-	// that has already arrived.
+	// reads what came with the handshake; "tight_limit": it sets a read limit of
+	// exactly the largest message's wire size. None is a reason to lose (part
+	// of) a message that has already arrived.
 	After string `json:"after,omitempty"`
 }
 
@@ -67,7 +68,7 @@ func genBoundaryCase(t *rapid.T) BoundaryCase {
 	c.Rest = genChunks(t, "rest", 300)
 	c.EOFWith = rapid.Bool().Draw(t, "eof_with_last_bytes")
 	c.OnlyK = -1
-	c.After = rapid.SampledFrom([]string{"", "", "", "write_dead", "close_first"}).Draw(t, "after")
+	c.After = rapid.SampledFrom([]string{"", "", "", "write_dead", "close_first", "tight_limit"}).Draw(t, "after")
 	return c
 }
 
@@ -91,6 +92,17 @@ func checkC17(c BoundaryCase, o *Obs) error {
 				return fmt.Errorf("split %d (%s): WriteControl(close) right after the handshake: %v", k, path, err)
 			}
 			o.Class("own_close_sent_before_first_read")
+		case "tight_limit":
+			// a read limit of exactly the largest message's size on the wire (for a
+			// compressed message that is less than what it inflates to)
+			limit := 1
+			for _, m := range model.Msgs {
+				if m.WireLen > limit {
+					limit = m.WireLen
+				}
+			}
+			conn.SetReadLimit(int64(limit))
+			o.Class("tight_read_limit_set_after_handshake")
 		}
 		if c.After != "" {
 			path += ", " + c.After
